@@ -44,6 +44,7 @@ type peer struct {
 	sendMu  sync.Mutex
 	state   *subState         // shared by all connections of one subscriber: which messages it has acknowledged
 	held    []*packet.Publish // deliveries whose acknowledgement is being withheld
+	nAcks   int               // PUBACK and PUBCOMP packets received
 	user    string            // credentials presented in CONNECT
 	pass    string
 }
@@ -149,6 +150,10 @@ func (p *peer) reader() {
 		}
 		p.mu.Lock()
 		p.all = append(p.all, pkt)
+		switch pkt.(type) {
+		case *packet.Puback, *packet.Pubcomp:
+			p.nAcks++
+		}
 		ack := p.autoAck
 		if pub, ok := pkt.(*packet.Publish); ok {
 			p.got = append(p.got, pub)
@@ -299,6 +304,13 @@ func (p *peer) isOpen() bool {
 }
 
 func (p *peer) close() { _ = p.conn.Close() }
+
+// pubCount: how many PUBLISHes were received
+func (p *peer) pubCount() int {
+	p.mu.Lock()
+	defer p.mu.Unlock()
+	return len(p.got)
+}
 
 func (p *peer) received() []*packet.Publish {
 	p.mu.Lock()
